@@ -43,8 +43,9 @@ func init() {
 		ops := fs.Int("ops", 60, "ops per instance")
 		maxLevel := fs.Int("maxlevel", 12, "highest level")
 		minLevel := fs.Int("minlevel", 0, "lowest level")
+		first := fs.Int("first", 0, "first instance to run (resume after a crashed instance)")
 		fs.Parse(args)
-		Drive(*typ, *seed, *traces, *ops, *minLevel, *maxLevel, os.Stdout)
+		Drive(*typ, *seed, *first, *traces, *ops, *minLevel, *maxLevel, os.Stdout)
 	})
 }
 
@@ -90,15 +91,17 @@ func drawScratch(rng *hx.RNG) string {
 }
 
 // Drive runs seeded long op sequences on real encoder instances and logs them.
-func Drive(typ string, seed uint64, traces, ops, minLevel, maxLevel int, out io.Writer) {
+func Drive(typ string, seed uint64, first, traces, ops, minLevel, maxLevel int, out io.Writer) {
 	o := hx.NewOut(out)
 	defer o.Flush()
-	rng := hx.NewRNG(seed*31 + uint64(len(typ)))
+	cl := newCrashLog()
+	var rng *hx.RNG
 	ar := arenas{NewArena(arenaCap), NewArena(arenaCap + 8192), NewArena(arenaCap + 8192)}
 	t := parseType(typ)
 	impl := implOf(t)
 	lv := func() int { return minLevel + rng.Intn(maxLevel-minLevel+1) }
-	for tr := 0; tr < traces; tr++ {
+	for tr := first; tr < traces; tr++ {
+		rng = hx.NewRNG(seed*31 + uint64(len(typ)) + uint64(tr)*1000003) // per instance, so that a run can resume after a crash
 		cfg := Config{Type: t, Name: typ, L0: -1}
 		if tr%3 != 0 {
 			cfg.L0 = lv()
@@ -107,8 +110,12 @@ func Drive(typ string, seed uint64, traces, ops, minLevel, maxLevel int, out io.
 		if err != nil {
 			hx.Die("codec drive: %v", err)
 		}
+		w.crash = cl
 		o.Emit(event{Tr: tr, Ev: "Reset", Type: typ, Impl: impl})
 		for i := 0; i < ops && !w.closed; i++ {
+			if cl != nil {
+				cl.Idx, cl.Step = tr, i
+			}
 			e := event{Tr: tr, Type: typ, Impl: impl}
 			var a act
 			r := rng.Intn(100)
@@ -125,6 +132,9 @@ func Drive(typ string, seed uint64, traces, ops, minLevel, maxLevel int, out io.
 				a = act{Name: "SetLevel", L: "A"}
 				w.cfg.LA = lv()
 				e.Lvl = w.cfg.LA
+				if e.Lvl == 0 && w.cfg.Name == "zstd" {
+					e.Lvl, w.cfg.LA = 1, 1
+				}
 			default:
 				a = act{Name: "Close"}
 			}
@@ -152,6 +162,7 @@ func Drive(typ string, seed uint64, traces, ops, minLevel, maxLevel int, out io.
 				e.Detail = w.detail
 			}
 			o.Emit(e)
+			o.Flush() // a crash inside a C library must not lose the events logged so far
 			// keep the memory of long traces bounded: the writer is append-only, forget nothing but stop growing
 			if w.w.buf.Len() > 48<<20 {
 				break
